@@ -469,6 +469,11 @@ class Gen:
     def _wide_base(self, mc, w, depth, me):
         """A named base at least as wide as w (signal, or bundle leaf), with its width."""
         ch = self.ch
+        if self.cfg["bundles"] and mc.m.buns and ch.chance(1, 4):
+            # a member of a bundle instance, reached through a bundle reference and then sliced
+            leaves = [(["br", bname] + list(path), lw) for bname, (bid, _p, _f) in mc.m.buns.items() for path, lw in self.d.bundle_leaves(bid) if lw >= w and lw >= 2]
+            if leaves:
+                return ch.pick(leaves, "wbref")
         names = self._scalar_sources(mc, w, False) + self._scalar_sources(mc, w, True)
         if names and ch.chance(3, 4):
             nm = ch.pick(names, "wbase")
